@@ -132,18 +132,21 @@ def part_signing(ctx, wt, m, n, how, thorough):
     for seq in sequences:
         txn[0] += 1
         txid = '%064x' % (0xabc000 + txn[0])
+        # the spent outputs: one or two, with output numbers that differ from their position in the spend
+        outns = ctx.rng.choice([[0], [1], [3], [2, 0], [1, 4]])
         for w_ in ws:
-            w_.utxo_add(addr, 1000000, txid, 0, confirmations=3)
-        rep = {'op': 'sign', 'wt': wt, 'm': m, 'n': n, 'handoff': how, 'signers_in_order': seq}
+            for on in outns:
+                w_.utxo_add(addr, 1000000, txid, on, confirmations=3)
+        rep = {'op': 'sign', 'wt': wt, 'm': m, 'n': n, 'handoff': how, 'signers_in_order': seq, 'spent_output_numbers': outns}
         first = ws[seq[0]]
         created_by = ctx.rng.choice(['transaction_create', 'send'])
         rep['created_by'] = created_by
         try:
             if created_by == 'send':
                 # the usual way: send() without broadcasting creates, signs and serialises the transaction
-                t = first.send([(EXT, 100000)], input_arr=[(txid, 0)], fee=5000, broadcast=False)
+                t = first.send([(EXT, 100000)], input_arr=[(txid, on) for on in outns], fee=5000, broadcast=False)
             else:
-                t = first.transaction_create([(EXT, 100000)], input_arr=[(txid, 0)], fee=5000)
+                t = first.transaction_create([(EXT, 100000)], input_arr=[(txid, on) for on in outns], fee=5000)
                 t.sign()
         except Exception as e:
             ctx.violation('the first cosigner cannot create and sign the spend', dict(rep, error='%s: %s' % (type(e).__name__, str(e)[:80])))
@@ -172,7 +175,11 @@ def part_signing(ctx, wt, m, n, how, thorough):
             prefix = seq[:step + 1]
             model = run_driver(['ms_signed %d %d %s' % (m, n, ','.join(str(pos[s]) for s in prefix))])[0].split(' | ')[0]
             msig, mvalid = model.split(' valid=')
-            nsig = len(cur.inputs[0].signatures)
+            nsig = min(len(i_.signatures) for i_ in cur.inputs)
+            if sorted((i_.prev_txid.hex(), i_.output_n_int) for i_ in cur.inputs) != sorted((txid, on) for on in outns):
+                trace.append('the imported transaction spends other outpoints: %s' % [(i_.prev_txid.hex()[:8], i_.output_n_int) for i_ in cur.inputs])
+                ok = False
+                break
             # signatures beyond the threshold are not constrained by the property (the raw form carries m of them, a repeated signer
             # may be stored twice): compare the count up to m, and validity
             got = '%d valid=%s' % (min(nsig, m), 'true' if cur.verify() else 'false')
@@ -210,7 +217,7 @@ def part_signing(ctx, wt, m, n, how, thorough):
                 bt = Transaction.parse_hex(PUSHED[-1], network='bitcoin')
                 for bi in bt.inputs:
                     bi.value = 1000000
-                nsig_b = len(bt.inputs[0].signatures)
+                nsig_b = min(len(bi.signatures) for bi in bt.inputs)
                 if nsig_b < m or not bt.verify():
                     broadcast_problem = 'the broadcast bytes carry %d signature(s) / do not verify (needed %d)' % (nsig_b, m)
                 elif bt.inputs[0].redeemscript.hex() != script:
